@@ -64,7 +64,7 @@ Lemma utf8_char_bytes c : scalar c = true -> bytes_ok (utf8_char c) = true.
 Proof.
   intro S. unfold utf8_char, scalar in *.
   destruct (c <? 128) eqn:E1; [|destruct (c <? 2048) eqn:E2; [|destruct (c <? 65536) eqn:E3]];
-    cbn; unfold byte_ok; lia.
+    unfold bytes_ok; cbn [forallb]; unfold byte_ok; lia.
 Qed.
 
 Lemma bytes_ok_app a b : bytes_ok (a ++ b) = bytes_ok a && bytes_ok b.
